@@ -11,17 +11,17 @@ namespace IceProofs.C01Live
 open IceModel.AgentCore IceModel.Sys2 IceProofs.Sys2Run IceProofs.C01 IceProofs.Agent
 
 section
-variable {nat blocked : List (Nat × Nat)} {SLA SLB SR : Nat → Prop} {liteA liteB : Bool} {T0 H : Nat} {c : Bool}
+variable {nat blocked : List (Nat × Nat)} {SLA SLB SR : Nat → Prop} {liteA liteB : Bool} {T0 H J : Nat} {c : Bool}
 
 /-! ## one suffix event, seen from the hub -/
 
-inductive EvView (c : Bool) (H : Nat) (s : Sys) (e : SysEv) (s' : Sys) : Prop
+inductive EvView (c : Bool) (H J : Nat) (s : Sys) (e : SysEv) (s' : Sys) : Prop
   | same (h : s' = s)
   | dlv (k : Nat) (keep : Bool) (hd : Dgram) (hk : s.inflight[k]? = some hd) (h : s' = (s.deliver k keep).1)
-  | adv (T t : Nat) (he : e = .advance T) (hle : s.now ≤ T) (hH : T ≤ H) (ht : (s.agent c).nextTick = some t) (hT : T ≤ t)
+  | adv (T t : Nat) (he : e = .advance T) (hle : s.now ≤ T) (hH : T ≤ H) (ht : (s.agent c).nextTick = some t) (hT : T ≤ t + J)
       (h : s' = (s.advance T).1)
 
-theorem ev_view {s : Sys} {e : SysEv} (he : sufOK c H s e) : EvView c H s e (Sys.run s e) := by
+theorem ev_view {s : Sys} {e : SysEv} (he : sufOK c H J s e) : EvView c H J s e (Sys.run s e) := by
   cases e with
   | api _ _ => exact he.elim
   | drop _ => exact he.elim
@@ -47,7 +47,7 @@ theorem ev_view {s : Sys} {e : SysEv} (he : sufOK c H s e) : EvView c H s e (Sys
 theorem stable_runs {P : Sys → Prop}
     (kD : ∀ (s s' : Sys) (hd : Dgram) (t : List Dgram), Effect T0 s s' hd t → P s → P s')
     (kA : ∀ (s s' : Sys) (T : Nat), AdvEffect T0 T s s' → P s → P s')
-    {s : Sys} {es : List SysEv} (h : FInv nat blocked SLA SLB SR liteA liteB T0 H c s) (hs : SufOK c H s es) (hp : P s) :
+    {s : Sys} {es : List SysEv} (h : FInv nat blocked SLA SLB SR liteA liteB T0 H J c s) (hs : SufOK c H J s es) (hp : P s) :
     P (Sys.runs s es) := by
   induction es generalizing s with
   | nil => exact hp
@@ -58,16 +58,16 @@ theorem stable_runs {P : Sys → Prop}
     · rw [e']; exact kD _ _ _ _ (h.deliver keep hk).2.1 hp
     · rw [e']; exact kA _ _ _ (h.advance hle hH ht hT).2.1 hp
 
-theorem sel_runs {s : Sys} {es : List SysEv} (h : FInv nat blocked SLA SLB SR liteA liteB T0 H c s) (hs : SufOK c H s es)
+theorem sel_runs {s : Sys} {es : List SysEv} (h : FInv nat blocked SLA SLB SR liteA liteB T0 H J c s) (hs : SufOK c H J s es)
     {x : Bool} (g : Sel s x) : Sel (Sys.runs s es) x :=
   stable_runs (P := fun s => Sel s x) (fun _ _ _ _ he g => g.keep he) (fun _ _ _ he g => g.adv he) h hs g
 
-theorem hasSucc_runs {s : Sys} {es : List SysEv} (h : FInv nat blocked SLA SLB SR liteA liteB T0 H c s) (hs : SufOK c H s es)
+theorem hasSucc_runs {s : Sys} {es : List SysEv} (h : FInv nat blocked SLA SLB SR liteA liteB T0 H J c s) (hs : SufOK c H J s es)
     {x : Bool} (g : HasSucc s x) : HasSucc (Sys.runs s es) x :=
   stable_runs (P := fun s => HasSucc s x) (fun _ _ _ _ he g => g.keep he) (fun _ _ _ he g => g.adv he) h hs g
 
 /-- selector start and configuration never change on a suffix -/
-theorem static_runs {s : Sys} {es : List SysEv} (h : FInv nat blocked SLA SLB SR liteA liteB T0 H c s) (hs : SufOK c H s es)
+theorem static_runs {s : Sys} {es : List SysEv} (h : FInv nat blocked SLA SLB SR liteA liteB T0 H J c s) (hs : SufOK c H J s es)
     (x : Bool) : ((Sys.runs s es).agent x).selStart = (s.agent x).selStart ∧ ((Sys.runs s es).agent x).cfg = (s.agent x).cfg := by
   refine stable_runs (P := fun s' => (s'.agent x).selStart = (s.agent x).selStart ∧ (s'.agent x).cfg = (s.agent x).cfg)
     ?_ ?_ h hs ⟨rfl, rfl⟩
@@ -83,8 +83,8 @@ theorem static_runs {s : Sys} {es : List SysEv} (h : FInv nat blocked SLA SLB SR
     exact ⟨(he.lk x).selStart.trans hp.1, (he.ids x).cfg.trans hp.2⟩
 
 /-- a prefix of the suffix reaches a selection: it is still there at the end -/
-theorem sel_to_end {s : Sys} {e1 e2 : List SysEv} (h : FInv nat blocked SLA SLB SR liteA liteB T0 H c s)
-    (hs : SufOK c H s (e1 ++ e2)) {x : Bool} (g : Sel (Sys.runs s e1) x) : Sel (Sys.runs s (e1 ++ e2)) x := by
+theorem sel_to_end {s : Sys} {e1 e2 : List SysEv} (h : FInv nat blocked SLA SLB SR liteA liteB T0 H J c s)
+    (hs : SufOK c H J s (e1 ++ e2)) {x : Bool} (g : Sel (Sys.runs s e1) x) : Sel (Sys.runs s (e1 ++ e2)) x := by
   rw [Sys.runs_append]
   exact sel_runs (h.runs hs.head) hs.tail g
 
@@ -99,7 +99,7 @@ variable {x : Bool} {tid la ra : Nat} {uc nomOn : Bool} {ts : Nat}
 
 /-- the request of an open transaction is delivered before `dl`: the response is in flight (or the transaction is
 complete) -/
-theorem req_hop {s : Sys} {es : List SysEv} (h : FInv nat blocked SLA SLB SR liteA liteB T0 H c s) (hs : SufOK c H s es)
+theorem req_hop {s : Sys} {es : List SysEv} (h : FInv nat blocked SLA SLB SR liteA liteB T0 H J c s) (hs : SufOK c H J s es)
     {dl i : Nat} {d : Dgram} (hp : Goal c s x uc nomOn ∨ Ob s x tid la ra uc nomOn ts) (hi : s.inflight[i]? = some d)
     (hd : ReqD s x tid la ra uc d) (hdel : DeliveredBy dl s es i) (hy : dl - ts < maxBindingRequestTimeout) :
     ∃ e1 e2, es = e1 ++ e2 ∧ Ch2 c (Sys.runs s e1) x tid la ra uc nomOn ts ∧ (Sys.runs s e1).now ≤ dl := by
@@ -122,7 +122,7 @@ theorem req_hop {s : Sys} {es : List SysEv} (h : FInv nat blocked SLA SLB SR lit
       exact Or.inr ⟨k1, d', hd1, hr1⟩
 
 /-- the response of an open transaction is delivered before `dl`: the transaction is complete -/
-theorem resp_hop {s : Sys} {es : List SysEv} (h : FInv nat blocked SLA SLB SR liteA liteB T0 H c s) (hs : SufOK c H s es)
+theorem resp_hop {s : Sys} {es : List SysEv} (h : FInv nat blocked SLA SLB SR liteA liteB T0 H J c s) (hs : SufOK c H J s es)
     {dl i : Nat} {d : Dgram} (hp : Goal c s x uc nomOn ∨ Ob s x tid la ra uc nomOn ts) (hi : s.inflight[i]? = some d)
     (hd : RespD s x tid la ra d) (hdel : DeliveredBy dl s es i) (hy : dl - ts < maxBindingRequestTimeout) :
     ∃ e1 e2, es = e1 ++ e2 ∧ Goal c (Sys.runs s e1) x uc nomOn ∧ (Sys.runs s e1).now ≤ dl := by
@@ -145,7 +145,7 @@ theorem resp_hop {s : Sys} {es : List SysEv} (h : FInv nat blocked SLA SLB SR li
 
 /-- a nomination request over a `Link` is delivered: the controlled agent has a selected pair or has opened its own
 transaction on the pair it marked -/
-theorem nom_hop {s : Sys} {es : List SysEv} (h : FInv nat blocked SLA SLB SR liteA liteB T0 H c s) (hs : SufOK c H s es)
+theorem nom_hop {s : Sys} {es : List SysEv} (h : FInv nat blocked SLA SLB SR liteA liteB T0 H J c s) (hs : SufOK c H J s es)
     {dl i la ra : Nat} {d : Dgram} (hl : Link s c la ra) (hi : s.inflight[i]? = some d)
     (hd : NomD c s la ra d) (hdel : DeliveredBy dl s es i) :
     ∃ e1 e2, es = e1 ++ e2 ∧ DP c (Sys.runs s e1) true ∧ (Sys.runs s e1).now ≤ dl := by
@@ -162,8 +162,8 @@ theorem nom_hop {s : Sys} {es : List SysEv} (h : FInv nat blocked SLA SLB SR lit
 
 theorem mbrt_pos : 0 < maxBindingRequestTimeout := by unfold maxBindingRequestTimeout; omega
 
-theorem ch2_completes {L : Nat} {s : Sys} {es : List SysEv} (h : FInv nat blocked SLA SLB SR liteA liteB T0 H c s)
-    (hs : SufOK c H s es) (hf : FairL L s es) (g : Ch2 c s x tid la ra uc nomOn ts)
+theorem ch2_completes {L : Nat} {s : Sys} {es : List SysEv} (h : FInv nat blocked SLA SLB SR liteA liteB T0 H J c s)
+    (hs : SufOK c H J s es) (hf : FairL L s es) (g : Ch2 c s x tid la ra uc nomOn ts)
     (hend : s.now + L < (Sys.runs s es).now) (hy : s.now + L < ts + maxBindingRequestTimeout) :
     ∃ e1 e2, es = e1 ++ e2 ∧ Goal c (Sys.runs s e1) x uc nomOn ∧ (Sys.runs s e1).now ≤ s.now + L := by
   rcases g with g | ⟨hob, d, hd, hr⟩
@@ -173,8 +173,8 @@ theorem ch2_completes {L : Nat} {s : Sys} {es : List SysEv} (h : FInv nat blocke
     have := mbrt_pos
     exact resp_hop h hs (Or.inr hob) he hr hdel (by omega)
 
-theorem ch1_completes {L : Nat} {s : Sys} {es : List SysEv} (h : FInv nat blocked SLA SLB SR liteA liteB T0 H c s)
-    (hs : SufOK c H s es) (hf : FairL L s es) (g : Ch1 c s x tid la ra uc nomOn ts)
+theorem ch1_completes {L : Nat} {s : Sys} {es : List SysEv} (h : FInv nat blocked SLA SLB SR liteA liteB T0 H J c s)
+    (hs : SufOK c H J s es) (hf : FairL L s es) (g : Ch1 c s x tid la ra uc nomOn ts)
     (hend : s.now + 2 * L < (Sys.runs s es).now) (hy : s.now + 2 * L < ts + maxBindingRequestTimeout) :
     ∃ e1 e2, es = e1 ++ e2 ∧ Goal c (Sys.runs s e1) x uc nomOn ∧ (Sys.runs s e1).now ≤ s.now + 2 * L := by
   rcases g with g2 | ⟨hob, d, hd, hr⟩
@@ -203,8 +203,8 @@ theorem DP.dpy {L : Nat} {s : Sys} (g : DP c s true) (hL : 2 * L < maxBindingReq
   · exact Or.inl g
   · exact Or.inr ⟨tid, lb, rb, ts, g, by rw [hf rfl]; omega⟩
 
-theorem dpy_completes {L : Nat} {s : Sys} {es : List SysEv} (h : FInv nat blocked SLA SLB SR liteA liteB T0 H c s)
-    (hs : SufOK c H s es) (hf : FairL L s es) (g : DPY c L s) (hend : s.now + 2 * L < (Sys.runs s es).now) :
+theorem dpy_completes {L : Nat} {s : Sys} {es : List SysEv} (h : FInv nat blocked SLA SLB SR liteA liteB T0 H J c s)
+    (hs : SufOK c H J s es) (hf : FairL L s es) (g : DPY c L s) (hend : s.now + 2 * L < (Sys.runs s es).now) :
     ∃ e1 e2, es = e1 ++ e2 ∧ Sel (Sys.runs s e1) (!c) ∧ (Sys.runs s e1).now ≤ s.now + 2 * L := by
   rcases g with g | ⟨tid, lb, rb, ts, g, hy⟩
   · exact ⟨[], es, rfl, g, Nat.le_add_right _ _⟩
@@ -233,7 +233,7 @@ theorem NomSeen.adv_back' {T : Nat} {s : Sys} (h : SysOK nat blocked SLA SLB SR 
 
 /-- if there is no evidence of a nomination at the start of a suffix and there is some at its end, then at the moment
 it first appears the controlled agent has just handled the nomination -/
-theorem first_seen {s : Sys} {es : List SysEv} (h : FInv nat blocked SLA SLB SR liteA liteB T0 H c s) (hs : SufOK c H s es)
+theorem first_seen {s : Sys} {es : List SysEv} (h : FInv nat blocked SLA SLB SR liteA liteB T0 H J c s) (hs : SufOK c H J s es)
     (hns : ¬ NomSeen c s) (hend : NomSeen c (Sys.runs s es)) :
     ∃ e1 e2, es = e1 ++ e2 ∧ DP c (Sys.runs s e1) true := by
   induction es generalizing s with
@@ -245,7 +245,7 @@ theorem first_seen {s : Sys} {es : List SysEv} (h : FInv nat blocked SLA SLB SR 
       rcases ev_view hs.1 with e' | ⟨k, keep, hd, hk, e'⟩ | ⟨T, t, _, hle, hH, ht, hT, e'⟩
       · rw [e'] at hn1; exact absurd hn1 hns
       · rw [e'] at hn1 ⊢
-        obtain ⟨h', eff, _, _⟩ := h.deliver keep hk
+        obtain ⟨h', eff, _⟩ := h.deliver keep hk
         have hmem : hd ∈ s.inflight := List.mem_of_getElem? hk
         have hj : LinkedJ c False s := fun hx => absurd hx hns
         have hj' := hj.keep h.ok h'.ok eff hmem (fun d hd' => mem_restOf_or hk hd') (fun d hd' => by
@@ -257,13 +257,9 @@ theorem first_seen {s : Sys} {es : List SysEv} (h : FInv nat blocked SLA SLB SR 
         · exact g
         · exact g.elim
       · rw [e'] at hn1
-        obtain ⟨h', eff, early, _⟩ := h.advance hle hH ht hT
+        obtain ⟨h', eff, _, _, hselc⟩ := h.advance hle hH ht hT
         have hsel : (step (s.agent c) (.advance T)).1.selected = (s.agent c).selected := by
-          rcases Nat.lt_or_ge T t with hlt | hge
-          · rw [step_advance_early (h.ok.good c) ht hlt]
-          · have : T = t := by omega
-            subst this
-            exact (advance_single (h.ok.good c) hH ht).2
+          rw [← eff.agent c]; exact hselc
         exact absurd (NomSeen.adv_back' h.ok hH h'.ok eff hsel hn1) hns
     · obtain ⟨e1, e2, q1, q2⟩ := ih (h.run hs.1) hs.2 hn1 hend
       exact ⟨e :: e1, e2, by rw [q1]; rfl, q2⟩
